@@ -778,3 +778,114 @@ func runNodeFull(c caseIn) *caseOut {
 	}
 	return out
 }
+
+// keyRec: a memory store that records which keys are currently set (markers), to compare with the ids handed out
+type keyRec struct {
+	*memory.Storage
+	mu   sync.Mutex
+	keys map[string]bool
+}
+
+func (k *keyRec) SetNX(key string, value any, ttl time.Duration) (bool, error) {
+	ok, err := k.Storage.SetNX(key, value, ttl)
+	if ok && err == nil {
+		k.mu.Lock()
+		k.keys[key] = true
+		k.mu.Unlock()
+	}
+	return ok, err
+}
+func (k *keyRec) Set(key string, value any, ttl time.Duration) error {
+	err := k.Storage.Set(key, value, ttl)
+	if err == nil {
+		k.mu.Lock()
+		k.keys[key] = true
+		k.mu.Unlock()
+	}
+	return err
+}
+func (k *keyRec) Delete(key string) error {
+	err := k.Storage.Delete(key)
+	if err == nil {
+		k.mu.Lock()
+		delete(k.keys, key)
+		k.mu.Unlock()
+	}
+	return err
+}
+
+// runWrap: the IDManager wrappers (GenerateClientID / NodeID / UserID / PortMappingID and the Release* / Is*Used partners) as the
+// callers see them: the id HANDED OUT is the id that is marked (clause 2 of the theorem: held => marked, so that no other caller can
+// be given it), the store holds exactly one marker per live id (clause 3), and Release of the handed-out id removes exactly that marker.
+func runWrap(c caseIn) *caseOut {
+	out := &caseOut{PropOK: true, Sched: []int{}, Markers: []int{}, Threads: []thrOut{}}
+	ctx, cancel := context.WithCancel(context.Background())
+	defer cancel()
+	st := &keyRec{Storage: memory.New(ctx), keys: map[string]bool{}}
+	mgr := idgen.NewIDManager(st, ctx)
+	type kind struct {
+		name string
+		gen  func() (string, error)
+		used func(string) (bool, error)
+		rel  func(string) error
+	}
+	var lastClient = map[string]int64{}
+	kinds := []kind{
+		{"client", func() (string, error) {
+			v, err := mgr.GenerateClientID()
+			s := fmt.Sprint(v)
+			lastClient[s] = v
+			return s, err
+		}, func(s string) (bool, error) { return mgr.IsClientIDUsed(lastClient[s]) }, func(s string) error { return mgr.ReleaseClientID(lastClient[s]) }},
+		{"node", mgr.GenerateNodeID, mgr.IsNodeIDUsed, mgr.ReleaseNodeID},
+		{"user", mgr.GenerateUserID, mgr.IsUserIDUsed, mgr.ReleaseUserID},
+		{"port-mapping", mgr.GeneratePortMappingID, mgr.IsPortMappingIDUsed, mgr.ReleasePortMappingID},
+	}
+	n := c.N
+	if n < 1 {
+		n = 8
+	}
+	nkeys := func() int { st.mu.Lock(); defer st.mu.Unlock(); return len(st.keys) }
+	for _, k := range kinds {
+		base := nkeys()
+		seen := map[string]bool{}
+		var ids []string
+		for i := 0; i < n; i++ {
+			id, err := k.gen()
+			if err != nil {
+				out.PropOK, out.PropMsg = false, fmt.Sprintf("%s id: generation %d failed on an almost empty store: %v", k.name, i, err)
+				return out
+			}
+			if seen[id] {
+				out.PropOK, out.PropMsg = false, fmt.Sprintf("%s id %s handed out twice while live", k.name, id)
+				return out
+			}
+			seen[id] = true
+			ids = append(ids, id)
+			if u, err := k.used(id); err != nil || !u {
+				out.PropOK, out.PropMsg = false, fmt.Sprintf("%s id %s was handed out but is not marked as used (used=%v err=%v): the id the caller holds is not the id the store protects, so another caller can be given it", k.name, id, u, err)
+				return out
+			}
+			if got := nkeys() - base; got != i+1 {
+				out.PropOK, out.PropMsg = false, fmt.Sprintf("%s ids: %d live ids but %d markers in the store", k.name, i+1, got)
+				return out
+			}
+		}
+		out.NodeIDs = append(out.NodeIDs, k.name+":"+ids[0])
+		for i, id := range ids {
+			if err := k.rel(id); err != nil {
+				out.PropOK, out.PropMsg = false, fmt.Sprintf("%s id %s: release failed: %v", k.name, id, err)
+				return out
+			}
+			if u, _ := k.used(id); u {
+				out.PropOK, out.PropMsg = false, fmt.Sprintf("%s id %s is still marked after its release", k.name, id)
+				return out
+			}
+			if got := nkeys() - base; got != len(ids)-i-1 {
+				out.PropOK, out.PropMsg = false, fmt.Sprintf("%s ids: after releasing %d of %d ids the store holds %d markers: a release did not remove exactly its own marker", k.name, i+1, len(ids), got)
+				return out
+			}
+		}
+	}
+	return out
+}
